@@ -135,6 +135,6 @@ func (fc *FnCtx) makeMap(x *ssa.MakeMap) {
 	ms := fc.mapSymbols(mt)
 	hn := "MS." + typeName(mt)
 	cur := fc.getHeapTerm(&fc.cur, hn, arrOf(SInt))
-	fc.heapSet(&fc.cur, hn, arrOf(SInt), fmt.Sprintf("(store %s %s %s)", cur, r.S(), mangle("mempty."+ms.name)))
+	fc.assumeHere(fmt.Sprintf("(= (select %s %s) %s)", cur, r.S(), mangle("mempty."+ms.name)))
 	fc.setVal(x, r)
 }
